@@ -57,6 +57,7 @@ type world struct {
 	events []*Event
 	n      int
 	sigNo  map[string]int
+	held   map[string]*identity.Identity // replica/id -> the identity the last merge handed back there
 }
 
 // sigOf: what tells the versions of an identity apart in this harness (see the NewIdent and Mutate steps).
@@ -187,7 +188,18 @@ func (w *world) do(s Step) {
 	case "Mutate":
 		w.n++
 		ev := &Event{Ev: "Mutate", I: s.I, IdStable: true}
-		i, err := identity.ReadLocal(repo, w.ids[s.I-1])
+		// the identity is read anew, or it is the object a merge handed back earlier in this process (what a long-lived process -
+		// the cache - goes on using)
+		var i *identity.Identity
+		var err error
+		if held := w.held[s.R+"/"+w.ids[s.I-1].String()]; held != nil {
+			i = held
+			if i.NeedCommit() {
+				ev.Err = "the identity a merge handed back claims to hold versions that are not committed"
+			}
+		} else {
+			i, err = identity.ReadLocal(repo, w.ids[s.I-1])
+		}
 		if err != nil {
 			ev.Err = "read: " + err.Error()
 			w.emit(ev, s.R)
@@ -238,6 +250,12 @@ func (w *world) do(s Step) {
 				// every version changed the name or added a metadata key of its own: name and accumulated metadata tell which version
 				// the returned identity ends with (0: none this session made)
 				o.returned = []int{w.sigNo[sigOf(id)]}
+				if w.held == nil {
+					w.held = map[string]*identity.Identity{}
+				}
+				if res.Status == entity.MergeStatusNew || res.Status == entity.MergeStatusUpdated {
+					w.held[s.R+"/"+res.Id.String()] = id
+				}
 			}
 			results = append(results, o)
 		}
